@@ -1488,7 +1488,10 @@ bool SGXMLScanner::scanStartTag(bool& gotData)
     if (isRoot)
     {
         fRootGrammar = fGrammar;
-        fRootElemName = XMLString::replicate(qnameRawBuf, fMemoryManager);
+        // (a second top level element, met when the scan goes on behind the
+        // fatal error it causes, must not overwrite - and leak - the name)
+        if (!fRootElemName)
+            fRootElemName = XMLString::replicate(qnameRawBuf, fMemoryManager);
     }
 
     if (fPSVIHandler)
